@@ -81,13 +81,13 @@ func NewEnv(cfg Config, seed int64, dir string) (*Env, error) {
 			e.SimFS = simfs.New(e.Clock.Now, mtimeRes(cfg.MtimeRes))
 			e.baseFs = e.SimFS
 		case "memmap":
-			e.baseFs = afero.NewMemMapFs()
+			e.baseFs = &clockFs{Fs: afero.NewMemMapFs(), now: e.Clock.Now}
 		case "osdir":
 			d := filepath.Join(dir, "fsroot")
 			if err := os.MkdirAll(d, 0700); err != nil {
 				return nil, err
 			}
-			e.baseFs = afero.NewBasePathFs(afero.NewOsFs(), d)
+			e.baseFs = &clockFs{Fs: afero.NewBasePathFs(afero.NewOsFs(), d), now: e.Clock.Now}
 		default:
 			return nil, fmt.Errorf("unknown fs kind %q", cfg.FS)
 		}
@@ -213,3 +213,51 @@ func (c Config) Paginates() bool { return c.Backend == "mem" }
 
 // IsFS reports whether the backend stores objects as files.
 func (c Config) IsFS() bool { return c.Backend == "multifs" || c.Backend == "singlefs" }
+
+// clockFs is the clock seam for the real file systems (MemMapFs, a real
+// directory): they stamp files with the wall clock, which no simulator owns,
+// so every file written through this wrapper gets its mtime from the simulated
+// clock when it is closed (what libfaketime would do for a real process).
+// Everything else is the wrapped file system's own behaviour.
+type clockFs struct {
+	afero.Fs
+	now func() time.Time
+}
+
+type clockFile struct {
+	afero.File
+	fs      *clockFs
+	name    string
+	written bool
+}
+
+func (c *clockFs) wrap(f afero.File, err error, name string, write bool) (afero.File, error) {
+	if err != nil || f == nil {
+		return f, err
+	}
+	return &clockFile{File: f, fs: c, name: name, written: write}, nil
+}
+
+func (c *clockFs) Create(name string) (afero.File, error) {
+	f, err := c.Fs.Create(name)
+	return c.wrap(f, err, name, true)
+}
+
+func (c *clockFs) OpenFile(name string, flag int, perm os.FileMode) (afero.File, error) {
+	f, err := c.Fs.OpenFile(name, flag, perm)
+	return c.wrap(f, err, name, flag&(os.O_WRONLY|os.O_RDWR|os.O_CREATE|os.O_TRUNC) != 0)
+}
+
+func (c *clockFs) Open(name string) (afero.File, error) {
+	f, err := c.Fs.Open(name)
+	return c.wrap(f, err, name, false)
+}
+
+func (f *clockFile) Close() error {
+	err := f.File.Close()
+	if f.written && err == nil {
+		t := f.fs.now()
+		f.fs.Fs.Chtimes(f.name, t, t)
+	}
+	return err
+}
